@@ -60,12 +60,10 @@ BASE_NETS = [
     ("ab,,bc->ac", (2, 3, 2), []),
     ("ab,cd,de->ecab", (2, 1, 2, 3, 2), []),
     ("abd,bc,ce->a", (2, 2, 3, 2, 2), []),
-    ("ab,ab,ab->", (2, 3), []),
     ("ab,ab,ba->ba", (3, 2), []),
     ("a,a,a->a", (3,), []),
     # 4 tensors
     ("ab,bc,cd,da->", (2, 3, 2, 2), [((0, 1), (2, 3), (4, 5))]),
-    ("ab,bc,cd,de->ae", (2, 3, 2, 3, 2), []),
     ("ab,bc,cd,de->ea", (3, 2, 2, 2, 2), [((0, 1), (4, 2), (5, 3))]),
     ("abc,bd,cd,ad->", (2, 2, 2, 2), []),
     ("ab,ac,ad,a->bcd", (2, 2, 2, 2), []),
@@ -84,6 +82,11 @@ BASE_NETS = [
     ("abc,abc,abc,abc,abc->cab", (2, 2, 2), []),
     ("ab,bc,ca,cd,de->e", (2, 2, 2, 2, 3), []),
     ("bef,ab,abcd,bde,acf->a", (2, 2, 2, 2, 2, 2), []),
+    # higher-rank tensors: sorted index orders differ from the default ones, so
+    # stale recipes become visible (found with the restore_ind self-test)
+    ("abce,bcd,adef,fe->", (2, 2, 2, 2, 2, 2), [((0, 2), (1, 3), (4, 5))]),
+    ("abc,cde,efa,bdf->", (2, 2, 2, 2, 3, 2), [((0, 2), (4, 3), (5, 1))]),
+    ("acef,afg,c,bdg,ade->ba", (2, 2, 2, 2, 2, 2, 2), [((0, 2), (3, 4), (1, 6), (5, 7))]),
 ]
 
 
@@ -201,8 +204,12 @@ PREPS = {
     "sorted+contracted": [["sort_contraction_indices", {"priority": "flops"}], ["contract", {}]],
     "annealed": [["simulated_anneal_", {"tsteps": 1, "numiter": 1, "seed": 0, **HOT}]],
     "sliced+contracted": [["remove_ind_", {"ind": "@0"}], ["contract", {}]],
+    # recipes cached on top of NON-default index orders of an already sliced
+    # tree: unslicing is then one step away from stale parent recipes
+    "sliced+sorted+contracted": [["remove_ind_", {"ind": "@i0"}], ["sort_contraction_indices", {"priority": "flops"}], ["contract", {}]],
 }
 PREP_ORDER = ["fresh", "stats", "contracted", "sorted+contracted", "annealed", "sliced+contracted"]
+PREP_ORDER_VALUE = PREP_ORDER + ["sliced+sorted+contracted"]
 
 
 def resolve_prep(prep, case):
@@ -214,11 +221,16 @@ def resolve_prep(prep, case):
         for s in set(t):
             app[s] = app.get(s, 0) + 1
     good = [ix for ix in inds if app.get(ix, 0) >= 2] or inds
+    # '@i0': an INNER index on >= 2 tensors (contracted somewhere below the
+    # root, so that some ancestor is not re-created when it is unsliced)
+    inner = [ix for ix in good if ix not in case["output"]] or good
     out = []
     for name, kw in prep:
         kw = dict(kw)
         for k, v in kw.items():
-            if isinstance(v, str) and v.startswith("@"):
+            if isinstance(v, str) and v.startswith("@i"):
+                kw[k] = inner[int(v[2:]) % len(inner)]
+            elif isinstance(v, str) and v.startswith("@"):
                 kw[k] = good[int(v[1:]) % len(good)]
         out.append([name, kw])
     return out
@@ -1095,7 +1107,7 @@ def work_sampled(item):
         return {"n": 0, "timeout": 1, "id": k}
     rng = random.Random(1000003 * ctx["seed"] + 17 * k + 5)
     case = random_case(rng, nmin=ctx["nmin"], nmax=ctx["nmax"], max_space=ctx["max_space"], sizes=ctx["sizes"])
-    prep = rng.choice(PREP_ORDER)
+    prep = rng.choice(ctx["preps"])
     length = rng.randint(lo, hi)
     hist = [sample_op(rng, case, ctx["with_write"]) for _ in range(length)]
     chk = ctx["checker"]()
@@ -1134,22 +1146,24 @@ def aggregate(rep, results, tag, viols, stats):
 
 
 def run_histories(rep, tier, *, pid, module, checker, sizes, with_write, quick_budget_s, nsamp_quick, nsamp_thorough,
-                  seed_value, pmap, deadline):
+                  seed_value, pmap, deadline, preps=None):
     """Exhaustive length <= 2 (quick) / also <= 3 on a sub-base (thorough)
     histories over the base set x prepared states + seeded longer samples."""
     global _CTX
     quick = tier == "quick"
+    preps = list(preps or PREP_ORDER)
     t_end = deadline(tier, quick_budget_s, 1500)
     cases = base_cases(seed_value, sizes=sizes)
     nfixed = len(fixed_menu(with_write))
     viols = []
     stats = {"steps": 0, "skipped": 0, "timeout": 0, "samples": []}
-    base_ctx = {"pid": pid, "checker": checker, "with_write": with_write, "sizes": sizes, "seed": seed_value, "cases": cases}
+    base_ctx = {"pid": pid, "checker": checker, "with_write": with_write, "sizes": sizes, "seed": seed_value, "cases": cases,
+                "preps": preps}
 
     items = []
     for ci, case in enumerate(cases):
         m = len(menu_for(case, with_write))
-        for prep in PREP_ORDER:
+        for prep in preps:
             # two work items per (pair, state)
             items.append((ci, prep, list(range(0, m, 2)), 2))
             items.append((ci, prep, list(range(1, m, 2)), 2))
@@ -1159,7 +1173,7 @@ def run_histories(rep, tier, *, pid, module, checker, sizes, with_write, quick_b
     aggregate(rep, list(pmap(work_exhaustive, items, chunk=1)), "exh2", viols, stats)
     t_out = stats["timeout"]
     rep.scope(
-        f"all histories of length <= 2 over the menu x {len(cases)} (network, tree) pairs x {len(PREP_ORDER)} prepared cache states",
+        f"all histories of length <= 2 over the menu x {len(cases)} (network, tree) pairs x {len(preps)} prepared cache states {preps}",
         rep.evaluations - n0, exhaustive=(t_out == 0),
         bound=f"3-5 tensors, <= 6 indices, sizes {'1-3' if sizes == 'small' else 'distinct primes'}; menu = {nfixed} fixed ops + 3 per index"
         + ("" if not t_out else f"; {t_out} work items cut by the time budget"),
